@@ -78,6 +78,10 @@ fn float_patterns(r: &mut Rng, w: u32, ebits: u32, mbits: u32, thorough: bool) -
 /// patterns of n bytes: bit length L, kept mantissa (all ones / even / odd / random), round bit, sticky
 fn int_patterns(r: &mut Rng, n: usize, thorough: bool) -> Vec<B> {
     let w = 8 * n;
+    if thorough && n <= 2 {
+        // thorough tier: every value of the 8- and 16-bit types
+        return (0..(1u32 << w)).map(|x| x.to_le_bytes()[..n].to_vec()).collect();
+    }
     let mut v: Vec<B> = vec![gen::zero(n), gen::small(n, 1), gen::ones(n), gen::smin(n), gen::smax(n), gen::small(n, 2), gen::small(n, 3)];
     let mut lens: Vec<usize> = vec![2, 8, 23, 24, 25, 26, 27, 52, 53, 54, 55, 56, 63, 64, 65, 127, 128, 129, 130, 1023, 1024, 1025, 1026, w - 1, w];
     for _ in 0..(if thorough { 40 } else { 8 }) {
@@ -145,9 +149,9 @@ fn int_patterns(r: &mut Rng, n: usize, thorough: bool) -> Vec<B> {
 
 fn c14_type<T>(rec: &mut Rec, seed: u64, thorough: bool)
 where
-    T: Bn + CastFrom<f32> + CastFrom<f64>,
-    f32: CastFrom<T>,
-    f64: CastFrom<T>,
+    T: Bn + CastFrom<f32> + CastFrom<f64> + Copy + 'static,
+    f32: CastFrom<T> + AsPrimitive<T>,
+    f64: CastFrom<T> + AsPrimitive<T>,
 {
     let n = (T::W / 8) as usize;
     let mut r = Rng::new(seed ^ ((T::W as u64) << 31) ^ 0xC14);
@@ -165,12 +169,14 @@ where
         rec.fam("float_to_int", vec![f32_arg(bits as u32), ty::<T>()]);
         rec.form("cast_from", || val(<T as CastFrom<f32>>::cast_from(f)));
         rec.form("as_", || val(As::as_::<T>(f)));
+        rec.form("asprimitive", || val(<f32 as AsPrimitive<T>>::as_(f)));
     }
     for bits in float_patterns(&mut r, T::W, 11, 52, thorough) {
         let f = f64::from_bits(bits);
         rec.fam("float_to_int", vec![f64_arg(bits), ty::<T>()]);
         rec.form("cast_from", || val(<T as CastFrom<f64>>::cast_from(f)));
         rec.form("as_", || val(As::as_::<T>(f)));
+        rec.form("asprimitive", || val(<f64 as AsPrimitive<T>>::as_(f)));
     }
 }
 
@@ -347,9 +353,9 @@ where
     T: Bn + CastFrom<f32> + CastFrom<f64> + FromPrimitive + ToPrimitive
         + AsPrimitive<u8> + AsPrimitive<u16> + AsPrimitive<u32> + AsPrimitive<u64> + AsPrimitive<u128> + AsPrimitive<usize>
         + AsPrimitive<i8> + AsPrimitive<i16> + AsPrimitive<i32> + AsPrimitive<i64> + AsPrimitive<i128> + AsPrimitive<isize>
-        + AsPrimitive<f32> + AsPrimitive<f64>,
-    f32: CastFrom<T>,
-    f64: CastFrom<T>,
+        + AsPrimitive<f32> + AsPrimitive<f64> + Copy + 'static,
+    f32: CastFrom<T> + AsPrimitive<T>,
+    f64: CastFrom<T> + AsPrimitive<T>,
 {
     let mut rec = Rec::new();
     let thorough = c.cli.tier == "thorough";
